@@ -15,6 +15,25 @@ VERIF = os.path.dirname(os.path.dirname(os.path.abspath(__file__)))
 SEEDED = os.path.join(VERIF, "seeded")
 
 
+def write_readme():
+    rows = []
+    for d in sorted(os.listdir(SEEDED)):
+        mp = os.path.join(SEEDED, d, "meta.json")
+        if os.path.exists(mp):
+            rows.append(json.load(open(mp)))
+    with open(os.path.join(SEEDED, "README.md"), "w") as f:
+        f.write(
+            "# Seeded changes (written by independent sub-agents from the property text alone)\n\n"
+            "Each directory: patch.diff (apply with `git -C /repo apply`, or let tools/try_mutant.py apply it in a scratch worktree), "
+            "demo.py (exits 1 with the change, 0 without; run with cwd = repository root and PYTHONPATH=<root>/src:<root>), notes.md (the author's notes), meta.json.\n"
+            "Re-run everything with tools/sweep_seeded.py (quick tier). Letters A-B: round 1 (two per property), C-E: round 2 (three per property, 16 properties).\n\n"
+            "| id | breaks | what | needs to manifest | confirmed | caught by (quick tier) |\n|---|---|---|---|---|---|\n"
+        )
+        for m in rows:
+            cb = ", ".join(m["caught_by"]) if m["caught_by"] else ("not caught - see meta.json not_caught_note" if m.get("not_caught_note") else "**missed**")
+            f.write(f"| {m['id']} | {m['breaks_property']} | {m.get('what', '')} | {m.get('needs_to_manifest', '')} | {'yes' if m['confirmed'] else 'NO'} | {cb} |\n")
+
+
 def main():
     ap = argparse.ArgumentParser()
     ap.add_argument("--tier", default="quick")
@@ -54,13 +73,7 @@ def main():
         json.dump(meta, open(os.path.join(d, "meta.json"), "w"), indent=1)
         rows.append((mid, prop, ok, meta["caught_by"], meta.get("what", ""), meta.get("needs_to_manifest", "")))
         print(mid, "confirmed" if ok else "NOT-CONFIRMED", "caught by", meta["caught_by"], flush=True)
-    if not a.only:
-        with open(os.path.join(SEEDED, "README.md"), "w") as f:
-            f.write("# Seeded changes (written by independent sub-agents from the property text alone)\n\n")
-            f.write("Each directory: patch.diff (apply with `git -C /repo apply`), demo.py (exits 1 with the change, 0 without), notes.md (the author's notes), meta.json.\n")
-            f.write(f"Last sweep: tier {a.tier}. Regenerate with tools/sweep_seeded.py.\n\n| id | breaks | confirmed | caught by (quick tier) |\n|---|---|---|---|\n")
-            for mid, prop, ok, caught, what, needs in rows:
-                f.write(f"| {mid} | {prop} | {'yes' if ok else 'NO'} | {', '.join(caught) if caught else '**missed**'} |\n")
+    write_readme()
     return 0
 
 
